@@ -157,7 +157,7 @@ func GenFrame(r *sim.Rand, uplink bool, devAddr [4]byte, fcnt uint32, g CmdGen, 
 	case shape == 4:
 		// port without payload (optionally with FOpts)
 		f.HasPort = true
-		f.FPort = uint8(1 + r.Intn(255))
+		f.FPort = uint8(1 + r.Intn(223))
 		if r.Intn(2) == 0 {
 			f.FOpts = g.GenCmds(r, 1+r.Intn(15), 8)
 		}
@@ -165,7 +165,7 @@ func GenFrame(r *sim.Rand, uplink bool, devAddr [4]byte, fcnt uint32, g CmdGen, 
 	default:
 		// application payload, optionally with FOpts (MACPayload stays <= maxPayload+8)
 		f.HasPort = true
-		f.FPort = uint8(1 + r.Intn(255))
+		f.FPort = uint8(1 + r.Intn(223))
 		limit := maxPayload
 		if r.Intn(2) == 0 {
 			f.FOpts = g.GenCmds(r, 1+r.Intn(15), 8)
